@@ -56,7 +56,7 @@ class _Inner:
     def fit(self, X, y):
         k = self.kind
         y = np.asarray(y).astype(int)
-        if k in ("linear", "invert"):
+        if k in ("linear", "invert", "logit"):
             pos, neg = X[y == 1], X[y != 1]
             sd = X.std(axis=0) + 1e-9
             if len(pos) and len(neg):
@@ -65,6 +65,8 @@ class _Inner:
             else:
                 self.w = np.zeros(X.shape[1])
                 self.b = 0.0
+            if k == "logit":
+                self.scale = 3.0 * (float(np.std(X @ self.w)) or 1.0)
         elif k == "online":
             # one pass of a perceptron-like update: deliberately sensitive to the order of the rows
             sd = X.std(axis=0) + 1e-9
@@ -138,6 +140,9 @@ class _Inner:
             return X @ self.w + 1.1 * self.scale * ((h - np.floor(h)) - 0.5) * 3.46
         if k == "invert":
             return -(X @ self.w + self.b)
+        if k == "logit":
+            # a probability that is strictly monotone in the linear score: tie-free whenever the features are
+            return 1.0 / (1.0 + np.exp(-np.clip((X @ self.w + self.b) / self.scale, -30, 30)))
         if k == "svc":
             return self.m.decision_function(X)
         if k in ("tree", "knn", "onetree"):
@@ -245,7 +250,7 @@ class RecordingProbaEstimator(RecordingEstimator):
 
 def make_estimator(learner, rid_col, delay=0.0, seed=0, tag=""):
     """learner names: linear svc invert constant noise (decision_function);
-    tree knn onetree (+ ':proba' / ':proba1' variants expose predict_proba only)."""
+    tree knn onetree logit (+ ':proba' / ':proba1' variants expose predict_proba only)."""
     kind, _, mode = learner.partition(":")
     if mode == "proba":
         return RecordingProbaEstimator(kind=kind, rid_col=rid_col, delay=delay, seed=seed, tag=tag)
